@@ -88,7 +88,7 @@ pub fn gen_number(rng: &mut Rng, floats: bool) -> String {
                     1 => s.push('+'),
                     _ => {}
                 }
-                for _ in 0..rng.range(1, 3) {
+                for _ in 0..rng.range(1, 2) {
                     s.push((b'0' + rng.below(10) as u8) as char);
                 }
             }
